@@ -361,7 +361,7 @@ def below_first_range(run):
     LAMMPS table (round-6 seed C07_12)"""
     rng = run.rng
     for _ in range(run.n(10, 120)):
-        n = rng.choice(["buck", "bornmayer", "morse", "lj", "polynomial", "exponential"])
+        n = rng.choice([x for x in ("buck", "bornmayer", "morse", "lj", "exponential", "hbnd", "coul") if x in DOMAIN])
         ps = DOMAIN[n](rng)
         inner = getattr(pfo, n)(*ps)
         s = round(rng.uniform(0.8, 3.0), 3) + 0.000371
